@@ -223,6 +223,111 @@ def make_ugrid(oid, si_case, fill_case, dtype, tiers=("quick", "thorough")):
 
 
 # ------------------------------------------------------------------ ESMF
+def make_scrip(oid, lon_range, tiers=("quick", "thorough"), sizes=None, cost=5):
+    """SCRIP source: per-cell corner coordinates (no node numbering), cells with fewer corners repeat their last corner.
+    lon_range: '180' (longitudes in [-180,180]) or '360' (0..360)."""
+    n_face, n_max, n_node = 2, 4, 6
+    ORDER = [3, 0, 5, 1, 4, 2]        # the reader sorts corners lexicographically: longitude bands in an order unlike the node numbering
+    lo = 0 if lon_range == "360" else -180
+
+    def setup(ctx):
+        ctx.const("lon_range", lon_range)
+        fn, nf = C.sym_face_table(ctx, n_face, n_max, n_node, sizes=sizes)
+        lon = _reals(ctx, "lon", n_node, lo, lo + 360)
+        lat = _reals(ctx, "lat", n_node, -90, 90)
+        for r, i in enumerate(ORDER):
+            if i != 4:
+                ctx.solver.add(lon[i] >= lo + 10 + 50 * r, lon[i] <= lo + 50 + 50 * r)
+        ctx.solver.add(lon[4] == lon[1], lat[4] != lat[1])        # two nodes on one meridian: ordered by latitude
+        clon = _reals(ctx, "clon", n_face, lo, lo + 360)
+        clat = _reals(ctx, "clat", n_face, -90, 90)
+        area = _reals(ctx, "area", n_face, sc.lift(1e-9), 13)
+        return fn, nf, lon, lat, clon, clat, area
+
+    def _sel(arr, idx):
+        out = arr[-1]
+        for i in range(len(arr) - 2, -1, -1):
+            out = z3.If(idx == i, arr[i], out)
+        return out
+
+    def run(ctx, inp):
+        fn, nf, lon, lat, clon, clat, area = inp
+        old, symnp.UNIQUE_MODE[0] = symnp.UNIQUE_MODE[0], "rank"
+        try:
+            def corner(f, j, arr):
+                last = _sel([fn[f][k] for k in range(n_max)], nf[f] - 1)
+                return _sel(arr, z3.If(j < nf[f], fn[f][j], last))
+            A = lambda vals, shape: symnp.SArr.new([mk(x) for x in vals], shape, None, symnp.float64)
+            ds = symxr.Dataset()
+            ds["grid_corner_lon"] = symxr.DataArray(A([corner(f, j, lon) for f in range(n_face) for j in range(n_max)], (n_face, n_max)), dims=["grid_size", "grid_corners"], attrs={"units": "degrees"})
+            ds["grid_corner_lat"] = symxr.DataArray(A([corner(f, j, lat) for f in range(n_face) for j in range(n_max)], (n_face, n_max)), dims=["grid_size", "grid_corners"], attrs={"units": "degrees"})
+            ds["grid_center_lon"] = symxr.DataArray(A(clon, (n_face,)), dims=["grid_size"])
+            ds["grid_center_lat"] = symxr.DataArray(A(clat, (n_face,)), dims=["grid_size"])
+            ds["grid_area"] = symxr.DataArray(A(area, (n_face,)), dims=["grid_size"])
+            ds["grid_imask"] = symxr.DataArray(symnp.array([1] * n_face), dims=["grid_size"])
+            ds["grid_dims"] = symxr.DataArray(symnp.array([n_face]), dims=["grid_rank"])
+            Grid = world().get("uxarray.grid.grid", "Grid")
+            g = Grid.from_dataset(ds)
+            ctx.prove("sniffed as SCRIP", g.source_grid_spec == "Scrip")
+            got = g.face_node_connectivity.values.raw()
+            ctx.prove("table shape", got.shape_cap == (n_face, n_max) and _int_dtype(g.face_node_connectivity.values))
+            if got.shape_cap != (n_face, n_max):
+                return
+            glon, glat = [_zr(v) for v in g.node_lon.values.raw().flat_list()], [_zr(v) for v in g.node_lat.values.raw().flat_list()]
+            nn = sc.z(g.n_node)
+            for f in range(n_face):
+                cl = []
+                for j in range(n_max):
+                    idx = sc.z(got[f, j])
+                    ok = z3.And(idx >= 0, idx < nn, _lon_ok(_sel(glon, idx), _sel(lon, fn[f][j])), _sel(glat, idx) == _sel(lat, fn[f][j]))
+                    cl.append(z3.If(j < nf[f], ok, idx == F))
+                ctx.prove(f"cell {f}: its corners in order (positions), repeated padding corners -> fill at the end", z3.And(*cl))
+            ctx.prove("cell centres carried (lon wrapped)", z3.And(*[z3.And(_lon_ok(_zr(g.face_lon.values[i]), clon[i]), _zr(g.face_lat.values[i]) == clat[i]) for i in range(n_face)]))
+        finally:
+            symnp.UNIQUE_MODE[0] = old
+
+    def replay(v):
+        import xarray as xr
+        import uxarray as ux
+        rows, lon, lat = v["fn"], v["lon"], v["lat"]
+        cl, ct = [], []
+        for r in rows:
+            ids = [x for x in r if x != F]
+            ids = ids + [ids[-1]] * (n_max - len(ids))
+            cl.append([lon[i] for i in ids]); ct.append([lat[i] for i in ids])
+        ds = xr.Dataset()
+        ds["grid_corner_lon"] = xr.DataArray(np.array(cl, dtype=float), dims=["grid_size", "grid_corners"], attrs={"units": "degrees"})
+        ds["grid_corner_lat"] = xr.DataArray(np.array(ct, dtype=float), dims=["grid_size", "grid_corners"], attrs={"units": "degrees"})
+        ds["grid_center_lon"] = xr.DataArray(np.array(v["clon"], dtype=float), dims=["grid_size"])
+        ds["grid_center_lat"] = xr.DataArray(np.array(v["clat"], dtype=float), dims=["grid_size"])
+        ds["grid_area"] = xr.DataArray(np.array(v["area"], dtype=float), dims=["grid_size"])
+        ds["grid_imask"] = xr.DataArray(np.ones(n_face, dtype=np.int32), dims=["grid_size"])
+        ds["grid_dims"] = xr.DataArray(np.array([n_face], dtype=np.int32), dims=["grid_rank"])
+        try:
+            g = ux.Grid.from_dataset(ds)
+            fnr = g.face_node_connectivity.values
+            if fnr.dtype != np.intp:
+                return f"face_node_connectivity dtype {fnr.dtype}"
+            for f, r in enumerate(rows):
+                ids = [x for x in r if x != F]
+                got = [int(x) for x in fnr[f]]
+                if any(x != F for x in got[len(ids):]) or any(x == F for x in got[:len(ids)]):
+                    return f"SCRIP cell {f} with corners {list(zip(cl[f], ct[f]))} decoded as row {got}: padding is not 'fill values at the end only'"
+                for j, i in enumerate(ids):
+                    gl, gt = float(g.node_lon.values[got[j]]), float(g.node_lat.values[got[j]])
+                    if abs(((gl - lon[i] + 180) % 360) - 180) > 1e-9 or abs(gt - lat[i]) > 1e-9 or not (-180 - 1e-9 <= gl <= 180 + 1e-9):
+                        return f"SCRIP cell {f} corner {j}: decoded position ({gl},{gt}), the source has ({lon[i]},{lat[i]})"
+        except Exception as e:
+            return f"SCRIP source raised {type(e).__name__}: {str(e)[:150]}"
+        return None
+
+    return Obligation(oid, f"SCRIP dataset (longitudes in {'0..360' if lon_range == '360' else '-180..180'}) -> Grid", setup, run, replay, exact=True,
+                      functions=["Grid.from_dataset", "io.utils._parse_grid_type", "_scrip._read_scrip", "_scrip._to_ugrid", "connectivity._replace_fill_values",
+                                 "coordinates._set_desired_longitude_range"],
+                      bounds="2 cells <= 4 corners (all padding layouts: shorter cells repeat their last corner), 6 node positions in longitude bands ordered unlike the node numbering, two nodes on one meridian; cell areas arbitrary positive",
+                      tiers=tiers, timeout_s=3000, query_timeout_s=1500, cost=cost)
+
+
 def make_esmf(oid, si_case, tiers=("quick", "thorough")):
     n_face, n_max, n_node = 2, 4, 6
     base = {"absent": 1, "0": 0, "1": 1}[si_case]
@@ -656,7 +761,9 @@ def obligations(tier):
     obs += [make_esmf(f"C01.esmf.si_{si}", si) for si in ("absent", "0", "1")]
     obs += [make_mpas("C01.mpas.primal", False), make_mpas("C01.mpas.dual", True)]
     obs += [make_exodus("C01.exodus.coord", "coord"), make_exodus("C01.exodus.coordxyz", "coordxyz"),
-            make_exodus_blocks("C01.exodus.blocks.tri_quad", False), make_exodus_blocks("C01.exodus.blocks.quad_tri", True)]
+            make_exodus_blocks("C01.exodus.blocks.tri_quad", False), make_exodus_blocks("C01.exodus.blocks.quad_tri", True),
+            make_scrip("C01.scrip.180.q4t3", "180", sizes=[4, 3]), make_scrip("C01.scrip.360.t3q4", "360", sizes=[3, 4], tiers=("thorough",), cost=30),
+            make_scrip("C01.scrip.180", "180", tiers=("thorough",), cost=40), make_scrip("C01.scrip.360", "360", tiers=("thorough",), cost=100)]
     obs += [make_fill(f"C01.fill.{dt}.{fk}", dt, fk) for dt, fk in (("int64", "value"), ("int32", "value"), ("float64", "value"), ("int32", "none"))]
     obs += [make_sniff("C01.sniff")]
     return [o for o in obs if tier in o.tiers]
